@@ -124,6 +124,8 @@ type FCtx struct {
 	inlineStack  []string
 	termination  []string
 	pureFacts    []string
+	seenDef      map[string]bool // names already defined/assigned (anchors of named asserts)
+	anchored     map[string]bool // named asserts that found their anchor
 	ctxSuffixOf  map[string]string
 	cacheParent  map[string]string
 	cacheN       int
